@@ -919,7 +919,7 @@ func TestC17KnownOverrun(t *testing.T) {
 	strictOverrun = true
 	defer func() { strictOverrun = false }()
 	cases := []Case{
-		{Threads: 1, Fib: "nametree", CsCap: 64, Ops: []Op{{Face: 0, Pfx: pfxLocal, Mod: "cs", Verb: "config", Form: "garbage", Raw: []byte{0x68, 0x05, 0x07}}}},
+		{Threads: 1, Fib: "nametree", CsCap: 64, Ops: []Op{{Face: 0, Pfx: pfxLocal, Mod: "cs", Verb: "config", Form: "garbage", Raw: []byte{0x68, 0x05, 0x07, 0x00}}}},
 		{Threads: 1, Fib: "hashtable", CsCap: 64, Ops: []Op{{Face: 0, Pfx: pfxLocal, Mod: "faces", Verb: "update", Form: "garbage",
 			Raw: []byte{0x68, 0xff, 0xff, 0xff, 0xff, 0xff, 0xff, 0xff, 0xff, 0xff}}}},
 	}
